@@ -350,6 +350,17 @@ func (s *Sim) root() {
 	}
 	if len(fineOn) > 0 {
 		s.count("fine.runs")
+		if s.in.Cfg.FineHeld {
+			s.count("fine.runs-parking-under-mutex")
+		}
+	}
+	switch {
+	case s.in.PCTDepth > 0:
+		s.count("sched.style.priority")
+	case s.in.TailPct > 0:
+		s.count("sched.style.list+tail")
+	default:
+		s.count("sched.style.list")
 	}
 	installFineHooks(s.sched, fineOn, s.in.Cfg.FineHeld, s.countLocked)
 	defer uninstallFineHooks()
